@@ -21,12 +21,15 @@
     - user values are [Params.val]; the chained comparison [lo <= x <= hi] is [check_range] / [py_between];
     - numpy on exact rationals: [np.allclose] keeps numpy's tolerance |a - b| <= atol + rtol * |b| (1e-8, 1e-5);
     - Python's [hash] is a parameter; [tobytes] is the row-major list of entries;
-    - a leaf composite IS its dict name -> object ([list (string * mobj)], insertion ordered).
+    - a leaf composite IS its dict name -> object ([list (string * mobj)], insertion ordered);
+    - a composite with children IS its dict name -> child; its setters are the forwarding loop [np_branch_forward] over
+      an abstract method of the children ([forward]: left to right, an exception stops the loop), tied to
+      [Sync.b_cfg] / [h_cfg] / [m_cfg]; its [modalities_hash] is the fold of [hash_of_key] over a [KBranch].
 
     The representation is a function from the models to the objects: [obj_of tri m c] is the object of the modality [m] in
     a model of arity [tri] whose cache is [c]; [objs_of tri ims] is the dict of a leaf whose modalities-with-caches are
     [ims] (the shape of [Machine.i_mods uni_sig]); [strip ims] forgets the caches ([Unilateral.u_mods]). *)
-From LymphModel Require Import Base States Linalg Graph Transition Observation Dist Unilateral Models DistModel Params NumpyParams NumpyDist Sync Machine Hash HashProofs.
+From LymphModel Require Import Base States Linalg Graph Transition Observation Dist Unilateral Models DistModel Params NumpyParams NumpyDist Sync Machine Hash.
 Local Open Scope nat_scope.
 Local Open Scope string_scope.
 Local Open Scope list_scope.
